@@ -31,6 +31,11 @@ THEOREMS = [
     "delete_where_exact",
     "delete_where_through_child_spares_plain_parents",
     "reject_either_route_same",
+    "layering_shape_irrelevant",
+    "invariant_for_every_path",
+    "create_through_child_exists_in_both_for_every_path",
+    "update_either_route_same_state_for_every_path",
+    "parent_and_child_parts_disjoint",
 ]
 
 
@@ -133,7 +138,7 @@ def diff_fields(a, b):
 
 def describe(case, impl, model, spec):
     d = {"case": case, "transactions": case.split(" ")[1].split(";") if " " in case else []}
-    if case.startswith("k "):
+    if case[:1] == "k":
         d["items"] = case.split(" ")[2].split(";")
         ki, ks, km = [(x or "").split(" ;; ")[-1].split(" ")[1:] for x in (impl, spec, model)]
         d["items_where_impl_differs_from_spec"] = [[ki[i], ks[i]] for i in range(min(len(ki), len(ks))) if ki[i] != ks[i]][:6]
@@ -172,6 +177,10 @@ RULE = ("histories of 4-12 transactions (1-3 operations each; first error aborts
         "anyOf(roles)=r1) and QueryWithCursorC (unsorted / sort by name) over listed ids or the roles index cursor, every observation compared; "
         "g cases: the same schema with the extended child store's strategy registered before the plain child store's (the 54 fixed histories + "
         "random histories), all observations as for h; "
+        "every case carries the shape of the layering drawn for it (kind token <kind>~<A1 path>~<A2 path>~<parent base path>): nine shapes with "
+        "child data paths of 1, 2 and 3 segments, shared prefixes (ext.a / ext.b, x.y.a / x.y.b), parent base paths of 1-3 segments, segments named "
+        "like the children's field keys; the first 36 cases cycle through the pool, of the rest half keep ext1 / ext2 / u; the stores are wired with "
+        "these paths and the dump shows the real buckets; "
         "non-trivial = operations through the parent store and through a child store both committed; distinct = history text")
 
 
@@ -185,7 +194,8 @@ def histogram(lines, impl):
         txs = parse_case(c)
         segs = segments(a)
         inc("histories")
-        if c.startswith("g "):
+        inc("shape:" + (c.split(" ")[0].partition("~")[2] or "ext1~ext2~u"))
+        if c[:1] == "g":
             inc("histories-with-A2-registered-first")
         for t, ops in enumerate(txs):
             inc("transactions")
@@ -198,7 +208,7 @@ def histogram(lines, impl):
                         inc("result:" + (r if not r.startswith("other") else "other"))
         if first_finding_tx(c, a) is not None:
             inc("histories-with-child-create-over-existing-parent")
-        if c.startswith("k "):
+        if c[:1] == "k":
             inc("cursor-cases")
             for it in c.split(" ")[2].split(";"):
                 p = it.split("/")
@@ -236,7 +246,7 @@ def split_case(case):
 
 
 def join_case(kind, txs, items):
-    return kind + " " + ";".join(txs) + ((" " + ";".join(items)) if kind == "k" else "")
+    return kind + " " + ";".join(txs) + ((" " + ";".join(items)) if kind[:1] == "k" else "")
 
 
 def shrink(ctx, bad, want_spec_diff):
@@ -260,7 +270,7 @@ def shrink(ctx, bad, want_spec_diff):
         return False
 
     kind, txs, items = split_case(best[0])
-    if kind == "k":
+    if kind[:1] == "k":
         # keep one differing item if a single one suffices
         a_items = (best[1] or "").split(" ;; ")[-1].split(" ")[1:]
         ref = ((best[3] if want_spec_diff else best[2]) or "").split(" ;; ")[-1].split(" ")[1:]
